@@ -247,7 +247,13 @@ class Run:
         self.assume(z3.Not(cond))
         return False
 
-    def oblige(self, name, goal, kind="assert", note="", expect_sat=False):
+    def oblige(self, name, goal, kind="assert", note="", expect_sat=False, qf_only=False):
+        if qf_only and not expect_sat:
+            self._qf_flag = True
+            try:
+                return self.oblige(name, goal, kind, note, expect_sat)
+            finally:
+                self._qf_flag = False
         if isinstance(goal, bool):
             goal = z3.BoolVal(goal)
         region = self.x.finding_region(name) if not expect_sat and not self._in_finding else None
@@ -292,6 +298,7 @@ class Run:
             return
         ob = Obligation(name, list(self.pc), goal, self.x.unit_name, list(self.trace), kind, expect_sat, note)
         ob.watch = dict(self.watch)
+        ob.qf_only = getattr(self, "_qf_flag", False)
         self.obligations.append(ob)
         if not expect_sat and kind in ("safe", "pre", "assert"):
             # after asserting, assume (standard: avoids cascades of the same failure)
@@ -513,6 +520,10 @@ class Run:
             return self.ev_typed(node.orelse, fr, ty)
         if ty is not None:
             if isinstance(node, ast.List) and not node.elts and isinstance(ty, TSeq):
+                if ty.elem is TStr:
+                    fact = ops.str_join(z3.StringVal(""), z3.Empty(ty.sort())) == z3.StringVal("")
+                    self.pc.append(fact)
+                    self.solver_add(fact)
                 return Val(ty, z3.Empty(ty.sort()))
             if isinstance(node, ast.Dict) and not node.keys and isinstance(ty, TDict):
                 return Val(ty, ty.empty())
@@ -715,7 +726,7 @@ class Run:
             fr.vars[f"_seq{ordinal}"] = seq
         # 1. invariant on entry
         for k, inv in enumerate(spec.inv):
-            self.oblige(f"inv-init#{lname}#{k}", self.spec_bool(inv, fr), kind="inv-init")
+            self.oblige(f"inv-init#{lname}#{k}", self.spec_bool(inv, fr), kind="inv-init", qf_only=getattr(inv, "_qf_only", False))
         # 2. havoc everything the body may assign
         assigned, fields, globs = x.loop_assigned(st, fr)
         if spec.modifies is not None:
@@ -775,7 +786,7 @@ class Run:
             if kind == "for":
                 fr.vars[idx_name] = Val(TInt, fr.vars[idx_name].t + 1)
             for k, inv in enumerate(spec.inv):
-                self.oblige(f"inv-keep#{lname}#{k}", self.spec_bool(inv, fr), kind="inv-keep")
+                self.oblige(f"inv-keep#{lname}#{k}", self.spec_bool(inv, fr), kind="inv-keep", qf_only=getattr(inv, "_qf_only", False))
             if spec.variant:
                 v1 = self.spec_val(spec.variant, fr).t
                 self.oblige(f"variant#{lname}", z3.And(variant0 >= 0, v1 < variant0), kind="variant")
